@@ -115,6 +115,11 @@ func (f *FileBackend) writeLoop() {
 	dest, err := OpenRotateFile(f.File, f.Mode, f.MaxSize)
 	if err != nil {
 		log.Errorf("Failed create destination file: %s", err)
+
+		// nothing can be written, but senders must not block forever
+		for range f.request {
+		}
+
 		return
 	}
 
